@@ -10,6 +10,11 @@
 //!  * of an unknown pointer (allocated before the window / on another thread) -> forwarded.
 //! Whatever is still recorded at `end()` is reported as leaked.
 //!
+//! Freed blocks are *quarantined* until `end()`: they are filled with 0xDD and not returned to the
+//! system allocator while the window is open, so no address is reused inside a window, a
+//! use-after-free cannot corrupt the real heap, and a write into freed memory is detected at
+//! `end()` (`UseAfterFreeWrite`).
+//!
 //! The red zone is filled with 0xA5 and ends in a NUL byte, so a C-string scan that runs off the
 //! end of a block terminates deterministically inside memory we own.
 //!
@@ -28,6 +33,7 @@ pub enum AllocEvent {
     LayoutMismatch { seq: u64, alloc_size: usize, alloc_align: usize, free_size: usize, free_align: usize },
     DoubleFree { seq: u64, size: usize },
     RedzoneCorrupt { seq: u64, size: usize, first_bad_offset: usize },
+    UseAfterFreeWrite { seq: u64, size: usize, first_bad_offset: usize },
 }
 
 #[derive(Debug, Clone, Default, PartialEq, Eq)]
@@ -67,6 +73,7 @@ impl AllocReport {
                 AllocEvent::LayoutMismatch { .. } => "layout_mismatch".into(),
                 AllocEvent::DoubleFree { .. } => "double_free".into(),
                 AllocEvent::RedzoneCorrupt { .. } => "redzone".into(),
+                AllocEvent::UseAfterFreeWrite { .. } => "use_after_free_write".into(),
             });
         }
         if !self.leaked.is_empty() {
@@ -80,7 +87,8 @@ impl AllocReport {
 
 struct Tracker {
     live: HashMap<usize, (Layout, u64)>,
-    freed: HashMap<usize, (u64, usize)>,
+    /// quarantine: ptr -> (seq, layout it was allocated with)
+    freed: HashMap<usize, (u64, Layout)>,
     seq: u64,
     allocs: u64,
     frees: u64,
@@ -163,7 +171,21 @@ pub fn end() -> AllocReport {
     let _g = BypassGuard::new();
     let p = TRACKER.with(|c| c.replace(std::ptr::null_mut()));
     assert!(!p.is_null(), "alloc window not open");
-    let t = unsafe { Box::from_raw(p) };
+    let mut t = unsafe { Box::from_raw(p) };
+    let mut q: Vec<(usize, (u64, Layout))> = t.freed.drain().collect();
+    q.sort_by_key(|e| (e.1).0);
+    for (ptr, (seq, al)) in q {
+        unsafe {
+            let base = ptr as *const u8;
+            for i in 0..al.size() {
+                if *base.add(i) != 0xDD {
+                    t.events.push(AllocEvent::UseAfterFreeWrite { seq, size: al.size(), first_bad_offset: i });
+                    break;
+                }
+            }
+            System.dealloc(ptr as *mut u8, padded(al));
+        }
+    }
     let mut leaked: Vec<(u64, usize, usize)> =
         t.live.values().map(|(l, s)| (*s, l.size(), l.align())).collect();
     leaked.sort();
@@ -189,10 +211,7 @@ unsafe impl GlobalAlloc for TrackAlloc {
             return System.alloc(layout);
         }
         if BYPASS.try_with(|b| b.get()).unwrap_or(1) > 0 {
-            let p = System.alloc(layout);
-            // the address may be one we saw freed earlier in this window: it is live again
-            (*tp).freed.remove(&(p as usize));
-            return p;
+            return System.alloc(layout);
         }
         let _g = BypassGuard::new();
         let p = System.alloc(padded(layout));
@@ -205,7 +224,6 @@ unsafe impl GlobalAlloc for TrackAlloc {
         let t = &mut *tp;
         t.seq += 1;
         t.allocs += 1;
-        t.freed.remove(&(p as usize));
         t.live.insert(p as usize, (layout, t.seq));
         p
     }
@@ -241,14 +259,13 @@ unsafe impl GlobalAlloc for TrackAlloc {
                 if let Some(i) = bad {
                     t.events.push(AllocEvent::RedzoneCorrupt { seq, size: al.size(), first_bad_offset: i });
                 }
-                t.freed.insert(ptr as usize, (seq, al.size()));
-                // poison, so that use-after-free of payload data is visible
+                // quarantine + poison: use-after-free reads see 0xDD, writes are detected at end()
                 std::ptr::write_bytes(ptr, 0xDD, al.size());
-                System.dealloc(ptr, padded(al));
+                t.freed.insert(ptr as usize, (seq, al));
             }
             None => {
-                if let Some(&(seq, size)) = t.freed.get(&(ptr as usize)) {
-                    t.events.push(AllocEvent::DoubleFree { seq, size });
+                if let Some(&(seq, al)) = t.freed.get(&(ptr as usize)) {
+                    t.events.push(AllocEvent::DoubleFree { seq, size: al.size() });
                     // not forwarded
                 } else {
                     System.dealloc(ptr, layout);
